@@ -9,9 +9,9 @@ package c09
 
 import (
 	"context"
-	"log"
 	"fmt"
 	"io"
+	"log"
 	"log/slog"
 	"net/http"
 	"net/http/httptest"
@@ -121,6 +121,8 @@ func encCfg(g *rng.R) zapcore.EncoderConfig {
 	if g.P(1, 4) {
 		c.FunctionKey = "fn"
 	}
+	// every stock level encoder, the colouring ones included
+	c.EncodeLevel = rng.Pick(g, []zapcore.LevelEncoder{zapcore.LowercaseLevelEncoder, zapcore.LowercaseLevelEncoder, zapcore.CapitalLevelEncoder, zapcore.CapitalColorLevelEncoder, zapcore.LowercaseColorLevelEncoder})
 	return c
 }
 
@@ -139,6 +141,9 @@ func someFields(g *rng.R, n int) []zap.Field {
 			fs = append(fs, zap.Error(fmt.Errorf("wrapped: %w", io.ErrUnexpectedEOF)))
 		case 4:
 			fs = append(fs, zap.Errors(k, []error{io.EOF, fmt.Errorf("e%d", i)}))
+			if g.Bool() { // error groups (one cause, several causes): their elements are pooled
+				fs = append(fs, zap.NamedError(k+"g", errGroup{[]error{fmt.Errorf("lone%d", i)}}), zap.NamedError(k+"m", errGroup{[]error{io.EOF, nil, fmt.Errorf("m%d", i)}}))
+			}
 		case 5:
 			fs = append(fs, zap.Any(k, map[string]int{"x": g.Intn(5)}))
 		case 6:
@@ -162,7 +167,12 @@ func someFields(g *rng.R, n int) []zap.Field {
 	return fs
 }
 
-func nopHook(zapcore.Entry) error                            { return nil }
+type errGroup struct{ causes []error }
+
+func (g errGroup) Error() string   { return fmt.Sprintf("group of %d", len(g.causes)) }
+func (g errGroup) Errors() []error { return g.causes }
+
+func nopHook(zapcore.Entry) error                           { return nil }
 func nopSampleHook(zapcore.Entry, zapcore.SamplingDecision) {}
 
 // buildWorld creates the shared objects of one program.
@@ -388,6 +398,15 @@ var ops = []opFn{
 	func(wk *worker) (string, string) {
 		l, m := wk.logger(), wk.msg()
 		lvl := rng.Pick(wk.g, levels)
+		if wk.g.P(1, 4) {
+			// a level outside debug..fatal, most of them never logged before in this process
+			lvl = zapcore.Level(wk.g.Range(-40, 90))
+			if lvl >= zapcore.DPanicLevel && lvl <= zapcore.FatalLevel {
+				lvl = zapcore.Level(7)
+			}
+			l.Log(lvl, m, someFields(wk.g, wk.g.Intn(3))...)
+			return "Logger.Log(custom level)", ""
+		}
 		return "Logger.Log", dopanic(func() { l.Log(lvl, m, someFields(wk.g, wk.g.Intn(3))...) }, m)
 	},
 	func(wk *worker) (string, string) {
